@@ -247,7 +247,7 @@ func (f *Frame) unop(x *ssa.UnOp) {
 		f.setVal(x, "Bool", Not(f.val(x.X)))
 	case token.SUB:
 		v := S("-", f.val(x.X))
-		f.arith(x, v, "-"+x.X.Name())
+		f.arith(x, v, "-"+f.operandText(x.X))
 	default:
 		f.unknownValue(x, "unary "+x.Op.String())
 	}
@@ -385,7 +385,12 @@ func (f *Frame) binopText(x *ssa.BinOp) string {
 	return f.operandText(x.X) + x.Op.String() + f.operandText(x.Y)
 }
 
-func (f *Frame) operandText(v ssa.Value) string {
+func (f *Frame) operandText(v ssa.Value) string { return f.opText(v, 0) }
+
+func (f *Frame) opText(v ssa.Value, depth int) string {
+	if depth > 4 {
+		return "_"
+	}
 	switch c := v.(type) {
 	case *ssa.Const:
 		if c.Value != nil {
@@ -394,18 +399,54 @@ func (f *Frame) operandText(v ssa.Value) string {
 		return "nil"
 	case *ssa.Parameter:
 		return c.Name()
+	case *ssa.FreeVar:
+		return c.Name()
+	case *ssa.Global:
+		return c.Name()
 	case *ssa.Phi:
 		if c.Comment != "" {
 			return c.Comment
 		}
+	case *ssa.Alloc:
+		if c.Comment != "" {
+			return c.Comment
+		}
 	}
-	// find a debug name
+	// a debug name
 	for name, refs := range f.debug {
 		for _, r := range refs {
 			if r.val == v && !r.addr {
 				return name
 			}
 		}
+	}
+	switch c := v.(type) {
+	case *ssa.FieldAddr:
+		st := c.X.Type().Underlying().(*types.Pointer).Elem().Underlying().(*types.Struct)
+		return f.opText(c.X, depth+1) + "." + st.Field(c.Field).Name()
+	case *ssa.Field:
+		st := c.X.Type().Underlying().(*types.Struct)
+		return f.opText(c.X, depth+1) + "." + st.Field(c.Field).Name()
+	case *ssa.IndexAddr:
+		return f.opText(c.X, depth+1) + "[" + f.opText(c.Index, depth+1) + "]"
+	case *ssa.UnOp:
+		if c.Op == token.MUL {
+			return f.opText(c.X, depth+1)
+		}
+		return c.Op.String() + f.opText(c.X, depth+1)
+	case *ssa.BinOp:
+		return "(" + f.opText(c.X, depth+1) + c.Op.String() + f.opText(c.Y, depth+1) + ")"
+	case *ssa.Convert:
+		return typeShort(c.Type()) + "(" + f.opText(c.X, depth+1) + ")"
+	case *ssa.Call:
+		if b, ok := c.Call.Value.(*ssa.Builtin); ok && len(c.Call.Args) > 0 {
+			return b.Name() + "(" + f.opText(c.Call.Args[0], depth+1) + ")"
+		}
+		if sc := c.Call.StaticCallee(); sc != nil {
+			return sc.Name() + "()"
+		}
+	case *ssa.Extract:
+		return f.opText(c.Tuple, depth+1)
 	}
 	return "_"
 }
